@@ -142,6 +142,8 @@ def make_dataset(ctx, rng, idx):
     if idx < 10:
         n = [12, 30, 57, 30, 57, 12, 57, 30, 12, 57][idx]
     kind = rng.choice(["simple", "simple", "hive", "hive-part", "hive-part2"])
+    if idx < 5:
+        kind = ["simple", "hive-part2", "hive", "hive-part", "hive-part2"][idx]     # every layout, whatever the seed
     df = pd.DataFrame({"rid": np.arange(n, dtype="int64")})
     base = rng.randrange(-5, 50)
     style = rng.choice(["sorted", "random", "blocks", "const"])
@@ -174,7 +176,8 @@ def make_dataset(ctx, rng, idx):
         parts = ["p"]
         if kind == "hive-part2":
             # text keys of more than one character (a listed value must be typed element by element)
-            df["q"] = pd.Series([rng.choice(["x", "yy", "k2"]) for _ in range(n)], dtype=object)
+            # ... as an object column or as a pandas string column (the partition metadata then says 'str')
+            df["q"] = pd.Series([rng.choice(["x", "yy", "k2"]) for _ in range(n)], dtype=object if idx % 2 == 0 else "str")
             parts = ["p", "q"]
     offs = rng.choice([None, 7, 4, [0, 3, 11] if n > 11 else [0], 1000])
     stats = rng.choice([True, True, "auto", ["i"], ["i", "f", "s", "n"], False])
@@ -309,9 +312,23 @@ def datasets(ctx, report):
                         k, v = seg.split("=", 1)
                         pairs.append((k, v))
             chunks_per_rg.append({"n": rg.num_rows, "chunks": ch, "pairs": pairs, "haspath": fp is not None})
-        for pi in range(nprog):
+        # directed: list filters on every partition column, naming keys that exist
+        directed = []
+        for pc in ds["parts"]:
+            keys = sorted(set(v for v in full[pc].tolist() if v is not None))
+            for kk in keys[:3]:
+                directed.append([(pc, "in", [kk])])
+            if len(keys) >= 2:
+                directed.append([(pc, "in", [keys[0], keys[-1]])])
+                directed.append([(pc, "not in", [keys[0]])])
+                directed.append([(pc, "in", (keys[-1],)), ("i", ">=", int(full["i"].min()) if len(full) else 0)])
+        for pi in range(nprog + len(directed)):
             shape = rng.choice(["flat1", "flat2", "flat3", "or2", "or3"])
-            if shape.startswith("flat"):
+            if pi >= nprog:
+                filt = directed[pi - nprog]
+                dnf = [filt]
+                shape = "flat-directed"
+            elif shape.startswith("flat"):
                 filt = [rand_filter(rng, info, cols) for _ in range(int(shape[-1]))]
                 dnf = [filt]
             else:
